@@ -1363,3 +1363,90 @@ if __name__ == "__main__":
             print("TRANSLATOR:", x)
     if e or e2 or e3:
         sys.exit(3)
+
+
+def translate_build(repo, gen, consts, write):
+    """Gen/BuildImp.lean: `Subgraph(X, Y, I)` (`__init__` + `_build`) as far as the flattened fields go — the state every
+    translated `fit` starts from. The feature rows are abstracted (arc-weight oracle); `Node(idx, label, feature)` runs the
+    guards of the `Node` setters on the values `Node.__init__` stores."""
+    rel = "opfython/core/subgraph.py"
+    head = [f"/- GENERATED by tools/translate_fn.py from /repo/{rel} (`__init__`, `_build`) and /repo/opfython/core/node.py — do not edit. -/",
+            "import OpfVerif.Gen.SupImp", "set_option linter.unusedVariables false",
+            "namespace Opf.Gen.BuildImp", "open Opf Opf.Gen Opf.Gen.SupImp", ""]
+    try:
+        nodes = NodeFields(repo, consts)
+        tree = ast.parse(open(os.path.join(repo, rel)).read())
+        cls = [n for n in tree.body if isinstance(n, ast.ClassDef) and n.name == "Subgraph"]
+        if not cls:
+            raise Untranslatable(f"{rel}: class Subgraph not found")
+        fns = {n.name: n for n in cls[0].body if isinstance(n, ast.FunctionDef) and not n.decorator_list}
+        for need in ("__init__", "_build"):
+            if need not in fns:
+                raise Untranslatable(f"{rel}: Subgraph.{need} not found")
+
+        def fail(node, msg):
+            raise Untranslatable(f"untranslatable construct at {rel}:{getattr(node, 'lineno', '?')}: {msg}")
+        # ---- __init__: the attribute initialisations, then `_build(X, Y, I)` when X is given ----
+        init = [s for s in fns["__init__"].body if not Imp.is_doc(s)]
+        want_init = ["self.n_nodes = 0", "self.n_features = 0", "self.nodes = []", "self.idx_nodes = []", "self.trained = False"]
+        got = [ast.unparse(s) for s in init[:len(want_init)]]
+        if got != want_init:
+            fail(init[0], f"Subgraph.__init__ starts with {got}, expected {want_init}")
+        rest = init[len(want_init):]
+        txt = [ast.unparse(s) for s in rest]
+        ok = (len(rest) == 2 and txt[0] == "if from_file:\n    X, Y = self._load(from_file)"
+              and isinstance(rest[1], ast.If) and ast.unparse(rest[1].test) == "X is not None"
+              and [ast.unparse(s) for s in rest[1].body] == ["if Y is None:\n    Y = np.zeros(len(X), dtype=int)", "self._build(X, Y, I)"])
+        if not ok:
+            fail(rest[0] if rest else fns["__init__"], "Subgraph.__init__ after the attribute initialisations")
+        # ---- _build ----
+        body = [s for s in fns["_build"].body if not Imp.is_doc(s)]
+        if len(body) != 2:
+            fail(fns["_build"], "_build is not `for …: …` followed by the n_features assignment")
+        loop, last = body
+        if ast.unparse(last) != "self.n_features = self.nodes[0].features.shape[0]":
+            fail(last, "last statement of _build")
+        ok = (isinstance(loop, ast.For) and ast.unparse(loop.target) == "(i, (feature, label))"
+              and ast.unparse(loop.iter) == "enumerate(zip(X, Y))" and not loop.orelse and len(loop.body) == 2
+              and isinstance(loop.body[0], ast.If) and ast.unparse(loop.body[0].test) == "I is not None"
+              and [ast.unparse(s) for s in loop.body[0].body] == ["node = Node(I[i].item(), label.item(), feature)"]
+              and [ast.unparse(s) for s in loop.body[0].orelse] == ["node = Node(i, label.item(), feature)"]
+              and ast.unparse(loop.body[1]) == "self.nodes.append(node)")
+        if not ok:
+            fail(loop, "the node-creation loop of _build")
+        if nodes.init_params[:3] != ["idx", "label", "features"]:
+            fail(fns["_build"], f"Node.__init__ parameters {nodes.init_params}")
+
+        def pushes(idx_term):
+            out = []
+            args = {"idx": idx_term, "label": "label"}
+            if "idx" in nodes.guards:
+                for g in nodes.guard("idx", idx_term):
+                    out.append(f"let _g ← (if {g} then none else pure ())")
+            for f_ in SG_FIELDS:
+                d = nodes.default(f_, args)
+                for g in nodes.guard(f_, d):
+                    out.append(f"let _g ← (if {g} then none else pure ())")
+                out.append(f"let sg := {{ sg with {f_} := sg.{f_}.push {d} }}")
+            out.append("let sg := { sg with n_nodes := sg.n_nodes + 1 }")
+            return out
+        lines = ["let sg : SG := { n_nodes := 0, trained := false, idx_nodes := #[], " +
+                 ", ".join(f"{f_} := #[]" for f_ in SG_FIELDS) + " }",
+                 "let sg ← Py.forRange (σ := SG) (Y.size : Int) (fun i sg => (do",
+                 "    let label ← Py.idx Y i",
+                 "    let sg ← (match I with",
+                 "      | some I => (do",
+                 "          let t1 ← Py.idx I i"]
+        lines += ["          " + ln for ln in pushes("t1")] + ["          pure sg)", "      | none => (do"]
+        lines += ["          " + ln for ln in pushes("i")] + ["          pure sg))", "    pure sg)) sg",
+                  "let _g ← (if sg.n_nodes = 0 then none else pure ())   -- `self.nodes[0]`: IndexError on an empty subgraph",
+                  "pure sg"]
+        body_ = ["/-- `Subgraph(X, Y, I)` (" + rel + f":{fns['__init__'].lineno}, :{fns['_build'].lineno}): `Y` the labels (one node per label;",
+                 "`zip(X, Y)` with as many rows), `I` the optional identifiers. -/",
+                 "def build (Y : Array Int) (I : Option (Array Int)) : Option SG := do"] + ["  " + ln for ln in lines] + [""]
+        err = None
+    except Untranslatable as ex:
+        body_ = _stub(ex)
+        err = str(ex)
+    write(os.path.join(gen, "BuildImp.lean"), "\n".join(head + body_ + ["end Opf.Gen.BuildImp"]) + "\n")
+    return err
